@@ -196,8 +196,18 @@ impl World {
         let Some(&b) = byz.first() else { return vec![] };
         let n = self.cfg.spec.n();
         let votes = self.commit_votes();
-        // the newest vote of a correct node
-        let Some(((view, _), signers)) = votes.iter().filter(|(_, s)| s.keys().any(|k| !self.cfg.byz[*k])).max_by_key(|((v, _), _)| *v) else { return vec![] };
+        // every block some correct node voted for in the newest view with such votes
+        let Some(top) = votes.iter().filter(|(_, s)| s.keys().any(|k| !self.cfg.byz[*k])).map(|((v, _), _)| *v).max() else { return vec![] };
+        let targets: Vec<_> = votes.iter().filter(|((v, _), s)| *v == top && s.keys().any(|k| !self.cfg.byz[*k])).map(|(k, s)| (*k, s.clone())).collect();
+        let mut all = vec![];
+        for ((view, _), signers) in targets {
+            all.extend(self.forge_one(kind, view, &signers, b, &byz, n));
+        }
+        all
+    }
+
+    fn forge_one(&mut self, kind: u8, view: u64, signers: &BTreeMap<usize, validator::Signed<v2::ReplicaCommit>>, b: usize, byz: &[usize], n: usize) -> Vec<usize> {
+        let view = &view;
         let sample = signers.values().next().unwrap().msg.clone();
         let bits = |set: &dyn Fn(usize) -> bool| {
             let mut bv = bit_vec::BitVec::from_elem(n, false);
@@ -209,7 +219,7 @@ impl World {
         let mut agg = validator::AggregateSignature::default();
         let just = match kind % 4 {
             0 | 1 => {
-                for x in &byz {
+                for x in byz {
                     agg.add(&self.sign_as(*x, v2::ChonkyMsg::ReplicaCommit(sample.clone())).sig);
                 }
                 let signers = if kind % 4 == 0 { bits(&|_| true) } else { bits(&|i| self.cfg.byz[i]) };
@@ -223,7 +233,7 @@ impl World {
             }
             _ => {
                 let t = v2::ReplicaTimeout { view: self.committee.view(*view), high_vote: None, high_qc: None };
-                for x in &byz {
+                for x in byz {
                     agg.add(&self.sign_as(*x, v2::ChonkyMsg::ReplicaTimeout(t.clone())).sig);
                 }
                 let mut map = std::collections::BTreeMap::new();
